@@ -131,7 +131,17 @@ func render(v ssa.Value, d int) string {
 		return "…"
 	}
 	switch v := v.(type) {
+	case *CtxValue:
+		return renderCtx(v, d)
 	case *ssa.Parameter:
+		if a, ok := paramSubst[v]; ok {
+			return render(a, d+1)
+		}
+		if len(newHelpers) > 0 {
+			if a := helperArg(v); a != nil {
+				return render(a, d+1)
+			}
+		}
 		return paramName(v)
 	case *ssa.FreeVar:
 		return "&" + localName(v.Parent().Parent(), v.Name())
